@@ -133,11 +133,11 @@ ADDED = {
     'C13': 'Also: alias forms, carry72 and straddle-2^64 operands, the coefficient array at every word offset modulo 64, the same kernels compiled inside an AVX-512 build and with -march=native.',
     'C14': 'Also: alias forms, carry72 and straddle-2^64 operands, the coefficient array at every word offset modulo 64.',
     'C15': 'Also: every numeral text of 1..3 (4) symbols in every radix with an own parser, long numerals with leading zeros / upper case, the array overload of toString, the conversions repeated under a digit-grouping global locale, alias forms of the reference overloads.',
-    'C16': 'Also: index-list shapes (all gap words), placements (0/8/16/24 mod 32), adjacent base pointers, constant sweep (2^k-1, 2^k, 2^k+1), huge strides on sparse reservations, a ThreadSanitizer re-entrancy step with shared index tables, the AVX2 overloads compiled inside an AVX-512 build and with -march=native.',
+    'C16': 'Also: index-list shapes (all gap words), placements (0/8/16/24 mod 32), adjacent base pointers, constant sweep (2^k-1, 2^k, 2^k+1), whole-element patterns (one, zero, non-canonical one, basis elements, -1, base-field element in a / b / both x every stride configuration), huge strides on sparse reservations, a ThreadSanitizer re-entrancy step with shared index tables, the AVX2 overloads compiled inside an AVX-512 build and with -march=native.',
     'C17': 'Also: the passes listed for C16; parcpy / parSetZero from inside a parallel region, on every size 0..18432 and with buffers backed by shared and file mappings.',
     'C18': 'Also: a stack step (stack high-water at count c and 4c on a harness-owned stack; growth confirmed by a real overrun of an 8 MiB stack), an application-owned GMP allocator in the history harness.',
     'C19': 'Also: unmerged exploration of all histories to depth 4 (5) over large calls and over eleven small calls including the public computeR, histories on objects constructed with extension 2, 4, 8; a replay that does not reproduce the canonical key is a violation.',
-    'C20': 'Also: the readers perform line splicing before comment removal; 47 operations per build including the compound operators.',
+    'C20': 'Also: the readers perform line splicing before comment removal and give table initialisers and PTX immediates their C value (leading 0 = octal); 47 operations per build including the compound operators.',
 }
 for _k, _v in ADDED.items():
     if _k in CHECKS:
